@@ -126,6 +126,9 @@ def build_cell(cell):
                 out.append(["raise", "after-output"])
                 done = True
         prog["steps"] = out
+    if fail in ("before-sr", "after-sr", "after-output"):
+        # which class the application raises rotates over the table (an exit request is a failure too)
+        prog["exc"] = ("Exception", "BaseException", "OSError", "SystemExit")[sum(map(len, map(str, cell))) % 4]
     if clmode == "exact":
         prog["cl"] = produced_len
     elif clmode == "larger":
